@@ -103,9 +103,12 @@ class Session(BaseSession):
         self.event_dispatcher.notify(self.Event.end_request, request)
 
         read_callback = functools.partial(self.event_dispatcher.notify, self.Event.response_data)
-        stream.data_event_dispatcher.add_read_listener(read_callback)
+        header_data = []
+        header_callback = header_data.append
+        stream.data_event_dispatcher.add_read_listener(header_callback)
 
         while True:
+            del header_data[:]
             self._response = response = yield from stream.read_response()
 
             if not 100 <= response.status_code <= 199 \
@@ -113,9 +116,16 @@ class Session(BaseSession):
                 break
 
             # An interim response (100 Continue, 103 Early Hints) precedes
-            # the response to this request; it is not that response.
+            # the response to this request; it is not that response and
+            # its bytes are not reported as part of it.
             _logger.debug('Got interim response {0}.'.format(response))
 
+        stream.data_event_dispatcher.remove_read_listener(header_callback)
+
+        for data in header_data:
+            read_callback(data)
+
+        stream.data_event_dispatcher.add_read_listener(read_callback)
         response.request = request
 
         self.event_dispatcher.notify(self.Event.begin_response, response)
